@@ -4,6 +4,12 @@ import NmVerif.Lemmas.Take
 import NmVerif.Lemmas.Repeat
 import NmVerif.Lemmas.Concatenate
 import NmVerif.Lemmas.Roll
+import NmVerif.Lemmas.Resize
+import NmVerif.Index.Expand
+import NmVerif.Index.Diagonal
+import NmVerif.Index.SlidingWindow
+import NmVerif.Index.Split
+import NmVerif.Index.Stack
 /-
   C04 — selecting / replicating / joining / generating views equal their reference result.
   Only the property theorems live here; models are in `NmVerif/Index/*.lean`, specs + helper lemmas in
@@ -523,5 +529,264 @@ example : (rollAxesView [2, 3] [1, -2] [-1, 0]).map (·.map [1, 2]) = some (some
 example : (rollView [2, 3] (-1) (-1)).map (·.map [1, 2]) = some (some [1, 0]) := by decide
 example : rollSrc 3 2 (-1) = 0 := by decide
 example : (rollNoneView [2, 3] 1).map (·.map [1, 0]) = some (some [0, 2]) := by decide
+
+/-! ### resize (nearest-neighbour sampling: documented definition `src index = ⌊d · src / dst⌋` per axis) -/
+
+/-- equal rank and positive target extents: the view exists and has the requested shape -/
+theorem resize_shape (s t : Shape) (hl : s.length = t.length) (ht : Pos t) :
+    ∃ v, resizeView s t = some v ∧ v.src = s ∧ v.dst = t := by
+  have : (t.all fun e => decide (0 < e)) = true := by
+    simp only [List.all_eq_true, decide_eq_true_eq]; exact ht
+  simp [resizeView, shapeResize, hl, this]
+
+/-- a rank mismatch or a non-positive target extent is refused -/
+theorem resize_nothing (s t : Shape) (h : s.length ≠ t.length ∨ ¬ Pos t) : resizeView s t = none := by
+  have : ¬ (s.length = t.length ∧ (t.all fun e => decide (0 < e)) = true) := by
+    rintro ⟨h1, h2⟩
+    rcases h with h | h
+    · exact h h1
+    · apply h
+      simp only [List.all_eq_true, decide_eq_true_eq] at h2
+      exact h2
+  simp only [resizeView, shapeResize, this, if_false, Option.map_none]
+
+theorem resize_elem (s t : Shape) (v : IxView) (hv : resizeView s t = some v) (d : Idx) :
+    v.map d = some (resizeIdxSpec d s t) := by
+  simp only [resizeView, shapeResize] at hv
+  split at hv
+  · simp only [Option.map_some, Option.some.injEq] at hv
+    subst hv
+    simp [indexResize_eq_spec]
+  · simp at hv
+
+theorem resize_inBounds (s t : Shape) (hs : Pos s) (v : IxView) (hv : resizeView s t = some v) : v.InBounds := by
+  simp only [resizeView, shapeResize] at hv
+  split at hv
+  · rename_i h
+    simp only [Option.map_some, Option.some.injEq] at hv
+    subst hv
+    intro d hd i hi
+    simp only [Option.some.injEq] at hi
+    subst hi
+    exact indexResize_inShape d s t h.1 hs hd
+  · simp at hv
+
+example : (resizeView [2, 3] [4, 2]).map (fun v => (v.dst, v.map [3, 1])) = some ([4, 2], some [1, 1]) := by decide
+
+/-! ### compress (`compress(cond, a, axis) = take(a, nonzero(cond), axis)`; domain: axis ≥ 0 or None — the unchanged
+    code ignores a negative axis, known finding compress.negative-axis) -/
+
+/-- the kept positions are exactly positions of non-zero condition entries -/
+theorem compress_positions (cond : List Int) :
+    ∀ j ∈ nonzeroIdx cond, j < cond.length ∧ ∃ c, cond[j]? = some c ∧ c ≠ 0 := nonzeroIdx_spec cond
+
+/-- NumPy's shape: the axis keeps as many entries as the condition has non-zero ones -/
+theorem compress_shape (s : Shape) (cond : List Int) (k : Nat) (hk : k < s.length) :
+    ∃ v, compressView s cond (some (k : Int)) = some v ∧ v.src = s ∧
+      v.dst = takeShapeSpec s (nonzeroIdx cond).length k := by
+  obtain ⟨v, hv, h1, h2⟩ := take_shape s ((nonzeroIdx cond).map Int.ofNat) k hk
+  exact ⟨v, hv, h1, by simpa using h2⟩
+
+/-- entry `x` of the axis reads the `x`-th non-zero position of the condition -/
+theorem compress_elem (s : Shape) (cond : List Int) (k : Nat) (hk : k < s.length) (v : IxView)
+    (hv : compressView s cond (some (k : Int)) = some v) (d : Idx) (hd : InShape d v.dst)
+    (x j : Nat) (hx : d[k]? = some x) (hj : (nonzeroIdx cond)[x]? = some j) :
+    v.map d = some (d.set k j) :=
+  take_elem s _ k hk v hv d hd x j hx (by simp [hj])
+
+/-- a condition no longer than the axis never reads outside the source -/
+theorem compress_inBounds (s : Shape) (cond : List Int) (k : Nat) (hk : k < s.length) (hc : cond.length ≤ s[k])
+    (v : IxView) (hv : compressView s cond (some (k : Int)) = some v) : v.InBounds := by
+  apply take_inBounds s _ k hk _ v hv
+  intro e he
+  simp only [List.mem_map] at he
+  obtain ⟨j, hj, rfl⟩ := he
+  have := (nonzeroIdx_spec cond j hj).1
+  constructor
+  · exact Int.natCast_nonneg j
+  · show (j : Int) < (s[k] : Int)
+    omega
+
+example : nonzeroIdx [0, 1, 0, 1] = [1, 3] := by decide
+example : (compressView [2, 4] [0, 1, 0, 1] (some 1)).map (fun v => (v.dst, v.map [1, 1])) = some ([2, 2], some [1, 3]) := by decide
+
+/-! ### expand (spacing insertion with a fill value: documented definition — extent `n + (n-1)·spacing` on the axis,
+    source entry `q` at position `q·(spacing+1)`, fill elsewhere).  Proved for one axis (any accepted sign);
+    several axes are under correspondence only (listed in PARTIAL). -/
+
+theorem expand_shape (s : Shape) (axis : Int) (sp k e : Nat) (hk : normalizeAxis1 axis s.length = some k)
+    (he : s[k]? = some e) :
+    ∃ v, expandView s [axis] [sp] = some v ∧ v.src = s ∧ v.dst = replaceExtent s k (e + (e - 1) * sp) := by
+  have hkn := (normalizeAxis1_some axis _ k hk).1
+  simp [expandView, normalizeAxes, hk, shapeExpand, he, replaceExtent_eq_set s k _ hkn]
+
+/-- position `x` of the axis holds source entry `x / (sp+1)` when `sp+1` divides `x`, the fill value otherwise -/
+theorem expand_elem (s : Shape) (axis : Int) (sp k : Nat) (hk : normalizeAxis1 axis s.length = some k)
+    (v : IxView) (hv : expandView s [axis] [sp] = some v) (d : Idx) (x : Nat) (hx : d[k]? = some x) :
+    v.map d = if x % (sp + 1) = 0 then some (d.set k (x / (sp + 1))) else none := by
+  simp only [expandView, normalizeAxes, List.mapM_cons, List.mapM_nil, hk, Option.pure_def, Option.bind_eq_bind,
+    Option.bind_some, Option.map_some, Option.some.injEq] at hv
+  subst hv
+  simp only [indexExpand, hx]
+  by_cases h : x % (sp + 1) = 0
+  · simp [h]
+  · have : x % (sp + 1) > 0 := by omega
+    simp [h, this]
+
+theorem expand_inBounds (s : Shape) (axis : Int) (sp k : Nat) (hk : normalizeAxis1 axis s.length = some k)
+    (v : IxView) (hv : expandView s [axis] [sp] = some v) : v.InBounds := by
+  have hkn := (normalizeAxis1_some axis _ k hk).1
+  obtain ⟨w, hw, h1, h2⟩ := expand_shape s axis sp k s[k] hk (by simp [hkn])
+  rw [hv] at hw; simp only [Option.some.injEq] at hw; subst hw
+  intro d hd i hi
+  rw [h2] at hd
+  rw [h1]
+  obtain ⟨x, hx, hxm, hd'⟩ := coord_of_inShape hkn hd
+  rw [expand_elem s axis sp k hk v hv d x hx] at hi
+  split at hi
+  · rename_i hdiv
+    simp only [Option.some.injEq] at hi
+    subst hi
+    apply inShape_set_of_set hd' hkn
+    -- x = q (sp+1) < e + (e-1) sp  ⇒  q < e
+    have hq : x = (x / (sp + 1)) * (sp + 1) := by
+      have := Nat.div_add_mod x (sp + 1)
+      rw [hdiv, Nat.add_zero, Nat.mul_comm] at this
+      exact this.symm
+    apply Classical.byContradiction
+    intro hcon
+    have hge : s[k] ≤ x / (sp + 1) := by omega
+    have h3 : s[k] * (sp + 1) ≤ (x / (sp + 1)) * (sp + 1) := Nat.mul_le_mul_right _ hge
+    have h4 : (s[k] - 1) * sp ≤ s[k] * sp := Nat.mul_le_mul_right _ (by omega)
+    have h5 : s[k] * (sp + 1) = s[k] * sp + s[k] := by rw [Nat.mul_add, Nat.mul_one]
+    omega
+  · simp at hi
+
+example : (expandView [2, 3] [-1] [2]).map (fun v => (v.dst, v.map [1, 3], v.map [1, 4])) =
+    some ([2, 7], some [1, 1], none) := by decide
+
+/-! ### tril / triu (NumPy: `out[…, i, j] = m[…, i, j]` if `j ≤ i + k` (tril) / `j ≥ i + k` (triu), else 0;
+    a rank-1 `m` is used as every row of an `n × n` result) -/
+
+theorem tril_shape (s : Shape) (k : Int) : ∃ v, trilView s k = some v ∧ v.src = s ∧ v.dst = shapeTri s :=
+  ⟨_, rfl, rfl, rfl⟩
+
+theorem triu_shape (s : Shape) (k : Int) : ∃ v, triuView s k = some v ∧ v.src = s ∧ v.dst = shapeTri s :=
+  ⟨_, rfl, rfl, rfl⟩
+
+theorem tril_elem (s : Shape) (k : Int) (v : IxView) (hv : trilView s k = some v) (d : Idx) (i0 i1 : Nat)
+    (hd : lastTwo d = some (i0, i1)) :
+    v.map d = if (i1 : Int) ≤ (i0 : Int) + k then (if s.length > 1 then some d else some [i1]) else none := by
+  simp only [trilView, triView, Option.some.injEq] at hv
+  subst hv
+  simp only [hd]
+  by_cases h : (i1 : Int) ≤ (i0 : Int) + k
+  · have : ¬ ((i1 : Int) > (i0 : Int) + k) := by omega
+    simp [h, this]
+  · have : (i1 : Int) > (i0 : Int) + k := by omega
+    simp [h, this]
+
+theorem triu_elem (s : Shape) (k : Int) (v : IxView) (hv : triuView s k = some v) (d : Idx) (i0 i1 : Nat)
+    (hd : lastTwo d = some (i0, i1)) :
+    v.map d = if (i0 : Int) + k ≤ (i1 : Int) then (if s.length > 1 then some d else some [i1]) else none := by
+  simp only [triuView, triView, Option.some.injEq] at hv
+  subst hv
+  simp only [hd]
+  by_cases h : (i0 : Int) + k ≤ (i1 : Int)
+  · have : ¬ ((i0 : Int) > (i1 : Int) - k) := by omega
+    simp [h, this]
+  · have : (i0 : Int) > (i1 : Int) - k := by omega
+    simp [h, this]
+
+/-- neither view reads outside its source, whatever `k` -/
+private theorem triView_inBounds (f : Int → Int → Bool) (s : Shape) (v : IxView) (hv : triView f s = some v) : v.InBounds := by
+  simp only [triView, Option.some.injEq] at hv
+  subst hv
+  intro d hd i hi
+  simp only at hd hi
+  cases hlt : lastTwo d with
+  | none => simp [hlt] at hi
+  | some p =>
+    obtain ⟨i0, i1⟩ := p
+    simp only [hlt] at hi
+    split at hi
+    · simp at hi
+    · split at hi
+      · rename_i hr
+        simp only [Option.some.injEq] at hi; subst hi
+        have : shapeTri s = s := by
+          match s, hr with
+          | [], hr => simp at hr
+          | [_], hr => simp at hr
+          | _ :: _ :: _, _ => rfl
+        rwa [this] at hd
+      · rename_i hr
+        simp only [Option.some.injEq] at hi; subst hi
+        match s, hr, hd with
+        | [], _, hd =>
+          cases d with
+          | nil => simp [lastTwo] at hlt
+          | cons _ _ => simp [shapeTri, InShape] at hd
+        | [n], _, hd =>
+          match d, hd with
+          | [a, b], hd =>
+            simp only [shapeTri, InShape] at hd
+            simp only [lastTwo, List.reverse_cons, List.reverse_nil, List.nil_append, List.cons_append,
+              Option.some.injEq, Prod.mk.injEq] at hlt
+            obtain ⟨_, rfl⟩ := hlt
+            simp [InShape, hd.2.1]
+        | _ :: _ :: _, hr, _ => simp at hr
+
+theorem tril_inBounds (s : Shape) (k : Int) (v : IxView) (hv : trilView s k = some v) : v.InBounds :=
+  triView_inBounds _ s v hv
+
+theorem triu_inBounds (s : Shape) (k : Int) (v : IxView) (hv : triuView s k = some v) : v.InBounds :=
+  triView_inBounds _ s v hv
+
+example : (trilView [3, 3] (-1)).map (fun v => (v.map [1, 0], v.map [1, 1])) = some (some [1, 0], none) := by decide
+example : (triuView [3] 1).map (fun v => (v.dst, v.map [0, 2], v.map [1, 1])) = some ([3, 3], some [2], none) := by decide
+
+/-! ### diagflat (NumPy: the flattened input on the `k`-th diagonal of an `(n+|k|)²` zero matrix:
+    `out[i, i+k] = flat[i]` for `k ≥ 0`, `out[i-k, i] = flat[i]` for `k < 0`, i.e. source = `min(row, col)`) -/
+
+theorem diagflat_shape (s : Shape) (k : Int) :
+    ∃ v, diagflatView s k = some v ∧ v.src = s ∧ v.dst = [prod s + k.natAbs, prod s + k.natAbs] := by
+  refine ⟨_, rfl, rfl, ?_⟩
+  have : i2u ((prod s : Int) + (if k ≥ 0 then k else -k)) = prod s + k.natAbs := by
+    rw [i2u_of_nonneg _ (by split <;> omega)]
+    split <;> omega
+  simp [this]
+
+theorem diagflat_elem (s : Shape) (k : Int) (v : IxView) (hv : diagflatView s k = some v) (i0 i1 : Nat) :
+    v.map [i0, i1] = if (i1 : Int) = (i0 : Int) + k then some (ndindex s (min i0 i1)) else none := by
+  simp only [diagflatView, Option.some.injEq] at hv
+  subst hv
+  simp only [lastTwo, List.reverse_cons, List.reverse_nil, List.nil_append, List.cons_append]
+  by_cases h : (i1 : Int) = (i0 : Int) + k
+  · simp only [h, if_true]
+    have : i2u ((i0 : Int) + (if k > 0 then 0 else k)) = min i0 i1 := by
+      rw [i2u_of_nonneg _ (by split <;> omega)]
+      split <;> omega
+    rw [this]
+    simp [reshapeIdx, strides, prod, computeOffset, ndindex]
+  · simp [h]
+
+theorem diagflat_inBounds (s : Shape) (hs : Pos s) (k : Int) (v : IxView) (hv : diagflatView s k = some v) : v.InBounds := by
+  obtain ⟨w, hw, h1, h2⟩ := diagflat_shape s k
+  rw [hv] at hw; simp only [Option.some.injEq] at hw; subst hw
+  intro d hd i hi
+  rw [h2] at hd
+  rw [h1]
+  match d, hd with
+  | [i0, i1], hd =>
+    rw [diagflat_elem s k v hv i0 i1] at hi
+    split at hi
+    · simp only [Option.some.injEq] at hi
+      subst hi
+      exact indices_inShape hs _
+    · simp at hi
+
+example : (diagflatView [2, 2] (-1)).map (fun v => (v.dst, v.map [1, 0], v.map [4, 3], v.map [2, 2])) =
+    some ([5, 5], some [0, 0], some [1, 1], none) := by decide
 
 end NmVerif.Props.C04
